@@ -307,7 +307,9 @@ pub fn record_format(seed: u64, thorough: bool, path: &str) -> Value {
         let items: Vec<u64> = (0..n).map(|_| rng.next() & ((1u64 << w) - 1)).collect();
         let fname = serialize::temp_file_name("verif-fmt-writer");
         {
-            let mut wr = IntVectorWriter::with_buf_len(&fname, w, *rng.pick(&[0usize, 3, 64])).unwrap();
+            // a longer file is already in the way: what the writer leaves must be the vector's file and nothing else
+            let _ = std::fs::write(&fname, vec![0xEEu8; 4096 + 40]);
+            let mut wr = if rep % 3 == 2 { IntVectorWriter::new(&fname, w).unwrap() } else { IntVectorWriter::with_buf_len(&fname, w, *rng.pick(&[0usize, 3, 64])).unwrap() };
             for x in items.iter() { wr.push(*x); }
             if rep % 2 == 0 { wr.close().unwrap(); }
         }
@@ -319,7 +321,8 @@ pub fn record_format(seed: u64, thorough: bool, path: &str) -> Value {
         let bits: Vec<bool> = (0..nbits).map(|_| rng.chance(1, 3)).collect();
         {
             let mut header: Vec<u64> = Vec::new();
-            let mut wr = RawVectorWriter::with_buf_len(&fname, &mut header, *rng.pick(&[0usize, 64, 100])).unwrap();
+            let _ = std::fs::write(&fname, vec![0xEEu8; 4096 + 40]);
+            let mut wr = if rep % 3 == 2 { RawVectorWriter::new(&fname, &mut header).unwrap() } else { RawVectorWriter::with_buf_len(&fname, &mut header, *rng.pick(&[0usize, 64, 100])).unwrap() };
             for b in bits.iter() { wr.push_bit(*b); }
             if rep % 2 == 1 { wr.close().unwrap(); }
         }
